@@ -224,6 +224,25 @@ class LogicalType(type):  # noqa
                     force_clear=force_clear
                 ):
                     registered = True
+            elif isinstance(arg, LogicalType):
+                # a generic / constrained type written inline in the combination (NegativeInt | List['Z']) was built
+                # by the operator, before this registry existed: register the references its own arguments hold
+                for j, sub in enumerate(getattr(arg, "__args__", None) or ()):
+                    if isinstance(sub, ForwardRef):
+                        register_forward_ref(
+                            annotation=sub,
+                            global_vars=global_vars,
+                            forward_refs=forward_refs,
+                            forward_key=f"{key}:{j}",
+                            force_clear=force_clear,
+                        )
+                    elif isinstance(sub, LogicalType) and sub.combinator:
+                        sub.register_forward_refs(
+                            global_vars=global_vars,
+                            forward_refs=forward_refs,
+                            forward_key=f"{key}:{j}",
+                            force_clear=force_clear
+                        )
             args.append(arg)
         if registered:
             # only adjust args if registered
